@@ -86,6 +86,50 @@ Theorem C13_accept_complete : forall max interval fs oracle,
             accept max interval fs o = true.
 Proof. exact accept_complete. Qed.
 
+(* ---- execution.rs: the idempotence gate and the shared plan ---------------------------------- *)
+
+(* the speculative arm is taken only for an idempotent request with metrics and a policy *)
+Theorem C13_gate_cases : forall c,
+  gate c = None <->
+  (is_idempotent c = false \/ metrics_and_policy c = None \/ metrics_and_policy c = Some None).
+Proof. exact gate_cases. Qed.
+
+(* gate closed (in particular: not idempotent), for EVERY schedule: exactly one fiber ever, all
+   targets are drawn by it, at most one target is in flight at any time, and the call returns
+   that fiber's result (EmptyPlan if it found the plan empty) *)
+Theorem C13_gate : forall c pl bls b, gate c = None -> brun (binit c pl) bls = Some b ->
+  started (core b) = 1 /\ (forall f, In f (running (core b)) -> f = 0) /\
+  (forall d, In d (draws b) -> fst d = 0) /\
+  List.length (in_flight b) <= 1 /\
+  returned (core b) = spec_returned 0 1 (completions (proj bls)).
+Proof. exact gate_closed. Qed.
+
+(* gate open: the select loop inside is a schedule of `execute` (so every theorem above applies
+   to it), and at most 1 + max targets are in flight *)
+Theorem C13_gate_open : forall c pl bls b max, gate c = Some max -> brun (binit c pl) bls = Some b ->
+  run (init max) (proj bls) = Some (core b) /\ List.length (in_flight b) <= 1 + max.
+Proof. exact gate_open. Qed.
+
+(* one shared iterator: the targets handed out so far, in order, followed by what is left, are
+   the plan - nothing is handed out twice, nothing is skipped *)
+Theorem C13_plan_conservation : forall c pl bls b, brun (binit c pl) bls = Some b ->
+  pl = rev (drawn (draws b)) ++ plan b.
+Proof. exact plan_conservation. Qed.
+
+(* hence, for a duplicate-free plan, no target is handed to two fibers (nor twice to one), and
+   the targets in flight at any moment are pairwise different *)
+Theorem C13_distinct_targets : forall c pl bls b, NoDup pl -> brun (binit c pl) bls = Some b ->
+  NoDup (drawn (draws b)) /\
+  (forall f1 f2 t, In (f1, Some t) (draws b) -> In (f2, Some t) (draws b) -> f1 = f2) /\
+  NoDup (in_flight b).
+Proof. exact distinct_targets. Qed.
+
+(* "The only case where None is returned is when execution plan was exhausted": a fiber can
+   yield None only when the shared plan is empty, so giving up further executions loses no target *)
+Theorem C13_exhausted_sound : forall c pl bls b f b', brun (binit c pl) bls = Some b ->
+  bstep b (BComplete f None) = Some b' -> plan b = [] /\ plan b' = [].
+Proof. exact exhausted_sound. Qed.
+
 (* non-vacuity: concrete schedules *)
 Definition ex_ign : rres := Err (LastAttemptError UnableToAllocStreamId).
 Definition ex_def : rres := Err (LastAttemptError (DbError Invalid)).
@@ -118,6 +162,22 @@ Example C13_ex_timed :
   prop_obs 1 [(2%N, Some (Ok 1%N)); (3%N, Some (Ok 2%N))] (mkObs [0%N; 2%N] (Ok 2%N) 5%N) = false.
 Proof. repeat split; vm_compute; reflexivity. Qed.
 
+Definition ex_cfg (idem : bool) : config := mkConfig idem (Some (Some 2)).
+Example C13_ex_plan :
+  gate (ex_cfg true) = Some 2 /\ gate (ex_cfg false) = None /\ gate (mkConfig true (Some None)) = None /\
+  (* idempotent: two fibers draw different targets of the shared plan and both are in flight *)
+  option_map in_flight (brun (binit (ex_cfg true) [10%N; 20%N; 30%N]) [BDraw 0; BTimer; BDraw 1]) = Some [10%N; 20%N] /\
+  option_map plan (brun (binit (ex_cfg true) [10%N; 20%N; 30%N]) [BDraw 0; BTimer; BDraw 1]) = Some [30%N] /\
+  (* not idempotent: no timer, the single fiber walks the plan, one target in flight at a time *)
+  brun (binit (ex_cfg false) [10%N; 20%N]) [BDraw 0; BTimer] = None /\
+  option_map in_flight (brun (binit (ex_cfg false) [10%N; 20%N]) [BDraw 0; BDraw 0]) = Some [20%N] /\
+  (* a fiber that was handed nothing yields None, and only then *)
+  option_map (fun b => returned (core b))
+    (brun (binit (ex_cfg true) []) [BDraw 0; BComplete 0 None]) = Some (Some (Err EmptyPlan)) /\
+  brun (binit (ex_cfg true) [10%N]) [BDraw 0; BComplete 0 None] = None /\
+  brun (binit (ex_cfg true) [10%N]) [BComplete 0 (Some (Ok 1%N))] = None.
+Proof. repeat split; vm_compute; reflexivity. Qed.
+
 Print Assumptions C13_ignorable_table.
 Print Assumptions C13_bound.
 Print Assumptions C13_result.
@@ -130,3 +190,9 @@ Print Assumptions C13_accept_sound.
 Print Assumptions C13_prop_obs_spec.
 Print Assumptions C13_accept_schedule.
 Print Assumptions C13_accept_complete.
+Print Assumptions C13_gate_cases.
+Print Assumptions C13_gate.
+Print Assumptions C13_gate_open.
+Print Assumptions C13_plan_conservation.
+Print Assumptions C13_distinct_targets.
+Print Assumptions C13_exhausted_sound.
